@@ -507,7 +507,10 @@ CHECKS = {
     'C09': dict(modules=['FastPasta.Props.C09'], needs_harness=True, corr='fsm_step', run=run_c09,
                 theorems=['FastPasta.C09.fsm_refines_diagram_step', 'FastPasta.C09.fsm_refines_diagram', 'FastPasta.C09.illegal_never_silent',
                           'FastPasta.C09.reachable_states', 'FastPasta.C09.start_related', 'FastPasta.C09.ambiguity_reported',
-                          'FastPasta.C09.table_ok', 'FastPasta.C09.step_ok']),
+                          'FastPasta.C09.table_ok', 'FastPasta.C09.step_ok',
+                          # tie by translation: the model's step function = the function generated from the Rust source on this run
+                          'FastPasta.C09.fsmStep_eq_src', 'FastPasta.C09.fsmAdvance_eq_src', 'FastPasta.C09.ids_eq_src', 'FastPasta.C09.initial_eq_src',
+                          'FastPasta.C09.src_table']),
     'C10': dict(modules=['FastPasta.Props.C10'], needs_harness=True, corr='rdh_rules', run=run_c10,
                 theorems=['FastPasta.C10.sanity_iff', 'FastPasta.C10.sanity_ignores_reserved', 'FastPasta.C10.running_iff',
                           'FastPasta.C10.step_inv', 'FastPasta.C10.expectedPage_snoc', 'FastPasta.C10.run_spec']),
